@@ -198,8 +198,9 @@ Definition with_follow (r : rstate) (f : follow) : rstate :=
 (* ---------------------------------------------------------------- request parsers *)
 Definition dmarker (s : string) : option (string * mkind) :=
   match split "=" s with
-  | [d; "R"] | [d; "Ra"] | [d; "Rp"] | [d; "Rc"] | [d; "Rd"] => let? dn := dstr d in Some (dn, MRestricted)
-  | [d; "U"] | [d; "Ua"] | [d; "Ud"] | [d; "E"] => let? dn := dstr d in Some (dn, MOther)   (* E: the marker query fails *)
+  | [d; "R"] | [d; "Ra"] | [d; "Rp"] | [d; "Rc"] | [d; "Rd"] | [d; "Rx"] => let? dn := dstr d in Some (dn, MRestricted)
+  | [d; "U"] | [d; "Ua"] | [d; "Ud"] | [d; "E"] | [d; "Z"] | [d; "T"] => let? dn := dstr d in Some (dn, MOther)
+      (* E: the marker query fails; Z / T: a marker of type 0 (unspecified) / 3 (unknown): only type 2 is restricted *)
   | _ => None
   end.
 Definition dattr (s : string) : option (string * list string) :=
